@@ -31,7 +31,7 @@ def rand_field(npr, N):
 def gen_cases(rng, tier, pid):
     npr = rng.nprng()
     sizes = [2, 4, 6, 8] if tier == "quick" else [2, 4, 6, 8, 10, 12]
-    reps = 3 if tier == "quick" else 10
+    reps = 3 if tier == "quick" else 20
     cases, meta = [], []
     def add(name, expr, out, info):
         sc = float(numpy.max(numpy.abs(out)))
